@@ -22,6 +22,12 @@ Inductive c04case :=
     (* a Json field that holds prev (None = absent) is set to the JSON value v *)
 | CJsonDefault (txt : str) (d : jsn)
     (* a row written before the Json field existed (it lacks the member); the field has the default d, written txt *)
+| CUpd (h : how) (ty : Z) (old new : list Z)
+    (* a row whose field (ty: 0 Integer, 1 Float by bit pattern, 2 Boolean, 3 String, 4 a number inside a Json field by
+       its text) holds old is updated by id to new; the values are given in the encoding of the observation *)
+| CSvc (lits : list str)
+    (* one long-lived service instance receives, one after the other, requests that only differ in the text of a string
+       literal (line breaks and blanks inside it): a mutation per literal, then a filter query per literal *)
 | CAlias (a : str) (m : emodel) (q qn : query)
     (* q uses a as the alias of the entity and of a field, qn uses a neutral alias instead *)
 | CSearch (term : str) (accepted : bool)
@@ -193,6 +199,16 @@ Definition fts_operator (w : str) : bool :=
 Definition plain_term (t : str) : bool :=
   forallb (fun w => negb (match w with [] => true | _ => false end) && forallb word_char w && negb (fts_operator w)) (split_words t []).
 
+(* an update replaces the stored value by the assigned one, whatever the stored value is (no `nothing changes` shortcut
+   in the model): read back, found by the equality filters with the new value, not found any more with the old one *)
+Definition upd_expected (ty : Z) (new : list Z) : list Z :=
+  [0; Z.of_nat (List.length new)] ++ new ++ (if Z.eqb ty 4 then [2; 2; 2; 1] else [1; 1; 1; 1]).
+(* the service is stateless with respect to request texts: the value a request writes (filters on) is the value its own
+   literal denotes - a function of the request text alone, not of any request handled before *)
+Definition svc_values (lits : list str) : list str := map decode_literal lits.
+Definition svc_expected (lits : list str) : list Z :=
+  flat_map enc_str (svc_values lits) ++ map (fun _ => 1) lits ++ [1; 1].
+
 (* ---- what the model says the implementation does ---- *)
 Definition run_C04 (c : c04case) : list Z :=
   match c with
@@ -203,6 +219,8 @@ Definition run_C04 (c : c04case) : list Z :=
   | CB64 h upd w => run_b64 h w
   | CJson h upd nf prev v => run_json h nf prev v
   | CJsonDefault txt d => [0] ++ enc_jsn (canon d)      (* Ifnull(<json>, json(?)) since 6a15d74: the default comes back as the JSON value *)
+  | CUpd h ty old new => upd_expected ty new
+  | CSvc lits => svc_expected lits
   | CAlias a m q qn => if ident_ok a then [1; zb (str_eqb (skeleton2 (sql_text m q) 0) (skeleton2 (sql_text m qn) 0)); 1; 1] else [0]
   | CSearch term acc => [1; if plain_term term then 1 else zb acc]
   | CDefault m q => 1 :: enc_str (sql_text m q) ++ enc_str (sql_text (neutral_model m) q)
@@ -252,6 +270,8 @@ Definition spec_C04 (c : c04case) (obs : list Z) : bool :=
       | _, _ => zlist_eqb obs ([0] ++ enc_jsn (canon v) ++ [json_filterable v; 1])
       end
   | CJsonDefault txt d => zlist_eqb obs ([0] ++ enc_jsn (canon d))      (* the default is the JSON value, not its text *)
+  | CUpd h ty old new => zlist_eqb obs (upd_expected ty new)
+  | CSvc lits => zlist_eqb obs (svc_expected lits)      (* every request round-trips its own literal *)
   | CAlias a m q qn =>
       (* an identifier the grammar accepts changes nothing but the names: same structure, accepted by the engine,
          same rows *)
